@@ -68,6 +68,8 @@ struct FnInfo {
     rank: u32,
     /// First parameter is a recursion budget; callers pass a small literal.
     recursive: bool,
+    /// names of outer variables the body mentions (filled in when the body is complete)
+    captures: Vec<String>,
 }
 
 #[derive(Default)]
@@ -809,6 +811,16 @@ impl Gen<'_> {
             return false;
         }
         let v = self.rng.pick(&cands).clone();
+        // `x get f()` where f itself reads (or writes) x: the callee sees the old value
+        if self.rng.chance(1, 4) {
+            let fs: Vec<FnInfo> = self.callable(Some(&v.ty)).into_iter().filter(|f| f.captures.contains(&v.name)).collect();
+            if !fs.is_empty() {
+                let f = self.rng.pick(&fs).clone();
+                let c = self.call_expr(&f, 1);
+                out.push(Stmt::Assign { name: v.name, value: c, decl: u32::MAX });
+                return true;
+            }
+        }
         let e = match (&v.ty, self.rng.chance(1, 2)) {
             // accumulate: x get x add ...
             (Ty::Num, true) => bin(BinOp::Add, var(&v.name), self.num_expr(1)),
@@ -1235,7 +1247,7 @@ impl Gen<'_> {
             ptys.insert(0, Ty::Num);
             self.stats.recursive_fns += 1;
         }
-        let info = FnInfo { name: name.clone(), params: ptys.clone(), ret: ret.clone(), rank, recursive };
+        let info = FnInfo { name: name.clone(), params: ptys.clone(), ret: ret.clone(), rank, recursive, captures: Vec::new() };
         // visible throughout the defining block (including its own body, for recursion)
         if !self.scopes.last().unwrap().fns.iter().any(|f| f.name == name) {
             self.scopes.last_mut().unwrap().fns.push(info.clone());
@@ -1289,6 +1301,17 @@ impl Gen<'_> {
                 else_b: None,
             });
         }
+        if self.rng.chance(1, 80) {
+            // a wide function: many locals, so that the ids of the enclosing function's later
+            // locals lie far beyond its first ones
+            let k = self.rng.range(60, 140);
+            for _ in 0..k {
+                let name = self.fresh_name("w");
+                let id = i64::from(self.site());
+                stmts.push(Stmt::Make { name: name.clone(), init: Some(num(id)), decl: u32::MAX });
+                self.declare(VarInfo { name, ty: Ty::Num, frozen: false, fixed: false, lens: vec![] });
+            }
+        }
         let n = self.rng.range(1, 5) as usize;
         let body = self.block_stmts(n, false);
         let ended = body.last().is_some_and(|s| matches!(s, Stmt::Return(_)));
@@ -1326,6 +1349,16 @@ impl Gen<'_> {
         self.scopes.pop();
         self.fn_stack.pop();
         self.loop_depth = saved_loop;
+        // which outer variables does the body mention?
+        let mut mentioned = Vec::new();
+        mentions_block(&Block { stmts: stmts.clone() }, &mut mentioned);
+        let outer: Vec<String> = self.all_vars().into_iter().map(|v| v.name).filter(|n| mentioned.contains(n) && !params.contains(n)).collect();
+        for sc in self.scopes.iter_mut().rev() {
+            if let Some(f) = sc.fns.iter_mut().find(|f| f.name == name) {
+                f.captures = outer;
+                break;
+            }
+        }
         Stmt::FuncDef(Box::new(FuncDef { name, params, param_decls: vec![], body: Block { stmts }, id: u32::MAX }))
     }
 
@@ -1341,8 +1374,9 @@ impl Gen<'_> {
             ret: ret.clone(),
             rank: rank_b,
             recursive: true,
+            captures: Vec::new(),
         };
-        let info_a = FnInfo { name: a.clone(), params: vec![Ty::Num], ret, rank: self.next_rank, recursive: true };
+        let info_a = FnInfo { name: a.clone(), params: vec![Ty::Num], ret, rank: self.next_rank, recursive: true, captures: Vec::new() };
         // both names are known to the block before either body is generated
         self.scopes.last_mut().unwrap().fns.push(info_a.clone());
         self.scopes.last_mut().unwrap().fns.push(info_b.clone());
@@ -1350,5 +1384,69 @@ impl Gen<'_> {
         let da = self.func_def_named(a.clone(), true, Some((b.clone(), info_b)));
         let db = self.func_def_named(b, true, Some((a, info_a)));
         vec![da, db]
+    }
+}
+
+fn mentions_block(b: &Block, out: &mut Vec<String>) {
+    for s in &b.stmts {
+        match s {
+            Stmt::Make { init, .. } => {
+                if let Some(e) = init {
+                    mentions_expr(e, out);
+                }
+            }
+            Stmt::Assign { name, value, .. } => {
+                out.push(name.clone());
+                mentions_expr(value, out);
+            }
+            Stmt::AssignIndex { target, value } => {
+                mentions_expr(target, out);
+                mentions_expr(value, out);
+            }
+            Stmt::If { cond, then_b, else_b } => {
+                mentions_expr(cond, out);
+                mentions_block(then_b, out);
+                if let Some(eb) = else_b {
+                    mentions_block(eb, out);
+                }
+            }
+            Stmt::Loop { cond, body } => {
+                mentions_expr(cond, out);
+                mentions_block(body, out);
+            }
+            Stmt::Block(b) => mentions_block(b, out),
+            Stmt::FuncDef(f) => mentions_block(&f.body, out),
+            Stmt::Return(Some(e)) | Stmt::Expr(e) => mentions_expr(e, out),
+            _ => {}
+        }
+    }
+}
+
+fn mentions_expr(e: &Expr, out: &mut Vec<String>) {
+    match e {
+        Expr::Var { name, .. } => out.push(name.clone()),
+        Expr::Str(StrLit::Template { segs, .. }) => {
+            for s in segs {
+                if let Seg::Var { name, .. } = s {
+                    out.push(name.clone());
+                }
+            }
+        }
+        Expr::Bin(_, l, r) => {
+            mentions_expr(l, out);
+            mentions_expr(r, out);
+        }
+        Expr::Un(_, x) => mentions_expr(x, out),
+        Expr::Arr(items) => items.iter().for_each(|i| mentions_expr(i, out)),
+        Expr::Index(b, i) => {
+            mentions_expr(b, out);
+            mentions_expr(i, out);
+        }
+        Expr::Call { args, .. } => args.iter().for_each(|a| mentions_expr(a, out)),
+        Expr::Method { recv, args, .. } => {
+            mentions_expr(recv, out);
+            args.iter().for_each(|a| mentions_expr(a, out));
+        }
+        _ => {}
     }
 }
